@@ -358,6 +358,20 @@ func (x *Ctx) finish(wall time.Duration) int {
 		}
 	}
 
+	if dbg := os.Getenv("VERIF_DEBUG_VIOLS"); dbg != "" {
+		if f, err := os.Create(dbg); err == nil {
+			seenSig := map[string]int{}
+			for _, v := range unknown {
+				seenSig[v.Sig]++
+				if seenSig[v.Sig] <= 3 {
+					b, _ := json.Marshal(map[string]string{"sig": v.Sig, "desc": v.Desc})
+					f.Write(append(b, '\n'))
+				}
+			}
+			f.Close()
+		}
+	}
+
 	// one replay per distinct unknown signature (max 10)
 	sort.SliceStable(unknown, func(i, j int) bool { return unknown[i].Sig < unknown[j].Sig })
 	type rep struct{ sig, path string }
